@@ -627,11 +627,11 @@ func decodeArray(raw []byte, elemOid int) []interface{} {
 		// return an empty (non-nil) slice so that it renders as [] and not as null.
 		return []interface{}{}
 	}
-	if len(raw) < 20 || ndim < 0 || ndim > 6 {
+	if ndim < 0 || ndim > 6 || len(raw) < 12+int(ndim)*8 {
 		return nil
 	}
 
-	dataoff := i32(raw, 4)
+	dataoff := int(i32(raw, 4))
 	total := int32(1)
 	for i := int32(0); i < ndim; i++ {
 		total *= i32(raw, 12+int(i)*4)
@@ -639,18 +639,28 @@ func decodeArray(raw []byte, elemOid int) []interface{} {
 	if total <= 0 {
 		return nil
 	}
+	// A NULL element needs a bit of the null bitmap and any other element at least one
+	// byte of data: a larger count is corrupt and must not size an allocation.
+	count := int(total)
+	if count > 8*len(raw) {
+		return nil
+	}
 
 	var nullBitmap []byte
-	dataStart := 12 + ndim*8
+	dataStart := 12 + int(ndim)*8
 	if dataoff > 0 {
-		nullBitmap = raw[dataStart : dataStart+(total+7)/8]
+		bitmapEnd := dataStart + (count+7)/8
 		// dataoffset is counted from the start of the datum, i.e. it includes the
 		// 4-byte varlena header that the caller has already stripped from raw.
+		if bitmapEnd > len(raw) || dataoff-4 < bitmapEnd {
+			return nil
+		}
+		nullBitmap = raw[dataStart:bitmapEnd]
 		dataStart = dataoff - 4
 	}
 
 	elemLen, fixed := fixedLengths[elemOid]
-	return parseArrayElements(raw, int(dataStart), int(total), elemOid, elemLen, fixed, nullBitmap)
+	return parseArrayElements(raw, dataStart, count, elemOid, elemLen, fixed, nullBitmap)
 }
 
 // arrayElemAlign returns the alignment (pg_type.typalign) of an array element type.
@@ -685,6 +695,9 @@ func parseArrayElements(raw []byte, off, count, elemOid, elemLen int, fixed bool
 			}
 			if hdr := raw[off]; hdr&1 == 1 {
 				n := int(hdr >> 1)
+				if n < 1 || off+n > len(raw) {
+					break
+				}
 				elems = append(elems, DecodeType(raw[off+1:off+n], elemOid))
 				off += n
 			} else {
@@ -692,6 +705,9 @@ func parseArrayElements(raw []byte, off, count, elemOid, elemLen int, fixed bool
 					break
 				}
 				n := int(u32(raw, off) >> 2)
+				if n < 4 || off+n > len(raw) {
+					break
+				}
 				elems = append(elems, DecodeType(raw[off+4:off+n], elemOid))
 				off += n
 			}
